@@ -47,7 +47,7 @@ def make_jobs(tier):
         sides = ["s"] if not is_async(flavour) else (["a"] if quick else ["s", "a"])
         for side in sides:
             for entry in ("open", "open_hash"):
-                for algo in (("sha256", "xxh3") if quick else ref.ALGOS):
+                for algo in (("sha256", "xxh3", "sha512") if quick else ref.ALGOS):
                     jobs.append({"flavour": flavour, "side": side, "entry": entry, "algo": algo})
     return jobs
 
